@@ -1,0 +1,32 @@
+//go:build verif
+
+/*
+ * Yield/observation points used by the /verif harness (build tag verif).
+ */
+
+package z
+
+const (
+	vpAllocAdded      = 1 // Allocate: after the atomic add (observe: pos, sz)
+	vpAllocBeforeLock = 2 // Allocate: bounds check failed, before a.Lock()
+	vpAllocRetry      = 3 // Allocate: after a.Unlock(), before retrying (observe: 0 = someone else grew, 1 = grew)
+	vpAllocDone       = 4 // Allocate: slice cut (observe: bufIdx, posIdx)
+)
+
+// VerifPointFn, when set, is called at every yield point. It may block.
+var VerifPointFn func(id int)
+
+// VerifObserveFn, when set, is called at observation points; it must not block.
+var VerifObserveFn func(id int, a, b uint64)
+
+func verifPoint(id int) {
+	if f := VerifPointFn; f != nil {
+		f(id)
+	}
+}
+
+func verifObserve(id int, a, b uint64) {
+	if f := VerifObserveFn; f != nil {
+		f(id, a, b)
+	}
+}
